@@ -41,9 +41,18 @@ def tmpdir():
     return d
 
 
-def fresh(name="f.h5"):
+ODD_DIRS = ["rep[2]", "two words", "x*y", "q?", "\u00fcn\u00ef", "[ab]", "{a,b}", "100%", "-dash", "dot.d"]
+
+
+def fresh(name="f.h5", odd=None):
+    """a fresh scratch path; with odd=<int> the file lies in a sub-directory whose name holds glob characters, spaces or
+    non-ASCII letters (all legal in file names: code that globs, splits or re-encodes a path shows here)"""
     _counter[0] += 1
-    return os.path.join(tmpdir(), "%d_%s" % (_counter[0], name))
+    d = tmpdir()
+    if odd is not None:
+        d = os.path.join(d, ODD_DIRS[int(odd) % len(ODD_DIRS)])
+        os.makedirs(d, exist_ok=True)
+    return os.path.join(d, "%d_%s" % (_counter[0], name))
 
 
 def cleanup(*paths):
